@@ -265,7 +265,7 @@ def main(argv=None):
     n_known_refuted = sum(1 for o in refuted if match_known(known, prop, {"unit": o["unit"], "clause": o["clause"], "path": o.get("path", []), "witness": o.get("model")}))
     proved = sum(1 for o in vcs if o.get("status") == "proved")
     level = spec.get("level", "proof")
-    if n_known_refuted or spec.get("force_other"):
+    if n_known_refuted or known_lines or spec.get("force_other"):
         level = "other"
     by_backend = collections.Counter(o.get("backend", "?") for o in vcs if o.get("status") == "proved")
     samples = []
@@ -276,7 +276,8 @@ def main(argv=None):
         "discharged": proved,
         "checker_cmd": f"python3-vt -m pyvc.cli {prop} --tier {tier}  (VCs generated from {a.repo}/jaxtyping/*.py by pyvc, discharged by z3 {smt.z3.get_version_string()}; unknowns -> /usr/bin/cvc5, /usr/bin/z3)",
         "trusted_base": assumptions,
-        "explanation": spec.get("explanation", ""),
+        "explanation": (spec.get("text", "") + (" | All obligations discharged except those matched by listed known findings (see known_findings.json): " + "; ".join(known_lines) if known_lines else ""))[:4000],
+        "known_findings_reported": known_lines,
         "functions_under_contract": units_info,
         "by_backend": dict(by_backend),
         "solver_ms_total": round(sum(o.get("ms", 0) for o in obligations), 1),
